@@ -592,6 +592,14 @@ fn len_helpers(cfg: &Cfg) -> Report {
                 for rs in res {
                     let o = crate::tables::real::build_rqsc_resource(rs);
                     check(cx, "ResourceStructure", o.len(), to_vec(&o).len());
+                    let id = match &rs.id {
+                        RqscId::Cache(c) => rqsc::ResourceID::Cache(rqsc::CacheResource::new(*c)),
+                        RqscId::Mem { pd, bw } => rqsc::ResourceID::MemoryAffinityStructure(rqsc::MemoryAffinityStructureResource::new(*pd, *bw)),
+                        RqscId::Acpi { hid, uid } => rqsc::ResourceID::ACPIDevice(rqsc::ACPIDeviceResource::new(*hid, *uid)),
+                        RqscId::Pci(b) => rqsc::ResourceID::PCIDevice(rqsc::PCIDeviceResource::new(*b)),
+                        RqscId::Vendor(t, d) => rqsc::ResourceID::VendorSpecific(*t, d.clone()),
+                    };
+                    check(cx, "ResourceID", id.len(), to_vec(&id).len());
                 }
             }
             cx.rep.distinct(&format!("{:?}", op).len());
